@@ -7,6 +7,7 @@ on HTTP/1.1, a user injector returning value / "" / error).
 """
 import rwcommon as rw
 import vf
+import wiring
 
 
 def classify(sc, kind, key):
@@ -22,7 +23,9 @@ def run(ctx):
     scs = rw.scenarios(ctx, {'spoof'})
     obs = rw.replay(ctx, scs)
     n, samples = rw.judge(ctx, scs, obs, rw.FP_KEYS, classify)
-    cov = rw.coverage(ctx, scs, n, samples,
+    wsc, wobs = wiring.replay_rewrite(ctx, scs, limit=100)
+    nw, _ = rw.judge(ctx, wsc, wobs, rw.FP_KEYS, lambda sc, kind, key: dict(classify(sc, kind, key), via='real_wiring')) if wsc else (0, [])
+    cov = rw.coverage(ctx, scs, n + nw, samples,
                       'one scenario per initial state of Rewrite.tla in family "spoof"; the backend must see, under each configured '
                       'fingerprint name, exactly the value the same connection yields on a clean request, or nothing')
     return ctx.finish(cov, assumptions=['"computed by the proxy" is taken from a baseline request on the same connection; its correctness is C01-C03',
